@@ -36,6 +36,45 @@ type docCase struct {
 
 const nsJSON = `{"ex":"` + EntNS + `","r":"` + PredNS + `","p":"` + PropNS + `","_":"` + EntNS + `"}`
 
+// swapped_hub_prefixes: the payload comes from another hub, whose generated prefix names are this hub's in a different
+// numbering: the payload calls PropNS what this hub calls Prop2NS and the other way round (same for the predicates).
+const (
+	Prop2NS = "http://verif.test/p2/"
+	Pred2NS = "http://verif.test/r2/"
+)
+
+func swappedPrefixes(w *World) (p, p2, r, r2 string) {
+	p2, _ = w.Store.NamespaceManager.AssertPrefixMappingForExpansion(Prop2NS)
+	r2, _ = w.Store.NamespaceManager.AssertPrefixMappingForExpansion(Pred2NS)
+	return w.PropP, p2, w.PredP, r2
+}
+
+func renderCtxW(w *World, shape string) string {
+	if shape == "swapped_hub_prefixes" {
+		p, p2, r, r2 := swappedPrefixes(w)
+		return `{"id":"@context","namespaces":{"ex":"` + EntNS + `","` + r + `":"` + Pred2NS + `","` + r2 + `":"` + PredNS + `","` + p + `":"` + Prop2NS + `","` + p2 + `":"` + PropNS + `","_":"` + EntNS + `"}}`
+	}
+	return renderCtx(shape)
+}
+
+// swapEnt rewrites an entity rendered for the plain context into the other hub's prefix names, and adds a property and a
+// reference of the second namespaces whose payload keys are literally the names this hub gives to the first ones.
+func swapEnt(w *World, e entShape, txt string, exp *CEntity) string {
+	p, p2, r, r2 := swappedPrefixes(w)
+	txt = strings.ReplaceAll(txt, `"p:`, `"`+p2+`:`)
+	txt = strings.ReplaceAll(txt, `"r:`, `"`+r2+`:`)
+	if e.Props == "scalars" && strings.Contains(txt, `"props":{"`+p2+`:a":"s",`) {
+		txt = strings.Replace(txt, `"props":{"`+p2+`:a":"s",`, `"props":{"`+p2+`:a":"s","`+p+`:a":"other","`+p+`:z":7,`, 1)
+		exp.Props[p2+":a"] = "other"
+		exp.Props[p2+":z"] = 7.0
+	}
+	if e.Refs == "single" && e.Props != "array_of_entities" && strings.Contains(txt, `"refs":{"`+r2+`:p":"ex:t1"}`) {
+		txt = strings.Replace(txt, `"refs":{"`+r2+`:p":"ex:t1"}`, `"refs":{"`+r2+`:p":"ex:t1","`+r+`:p":"ex:t9"}`, 1)
+		exp.Refs[r2+":p"] = w.EntP + ":t9"
+	}
+	return txt
+}
+
 func renderCtx(shape string) string {
 	switch shape {
 	case "ok", "ok_default_prefix":
@@ -173,12 +212,15 @@ func rp0(w *World) string { return w.PredP }
 
 func renderDoc(w *World, d *docCase, tag string) (string, []CEntity) {
 	var elems []string
-	if c := renderCtx(d.Ctx); c != "" {
+	if c := renderCtxW(w, d.Ctx); c != "" {
 		elems = append(elems, c)
 	}
 	var exp []CEntity
 	for i, e := range d.Ents {
 		txt, ce := renderEnt(w, e, fmt.Sprintf("e%d-%s", i+1, tag))
+		if d.Ctx == "swapped_hub_prefixes" {
+			txt = swapEnt(w, e, txt, ce)
+		}
 		elems = append(elems, txt)
 		exp = append(exp, *ce)
 	}
@@ -302,7 +344,7 @@ func TestParser(t *testing.T) {
 			// nothing assembled from the malformed element or from what follows it; what precedes it may have been
 			// flushed already (every 10 entities), entity by entity as the document denotes it
 			allowed := map[string]bool{}
-			if d.Ctx == "ok" || d.Ctx == "ok_default_prefix" {
+			if d.Ctx == "ok" || d.Ctx == "ok_default_prefix" || d.Ctx == "swapped_hub_prefixes" {
 				for i := 0; i < d.Bad-1 && i < len(exp); i++ {
 					allowed[exp[i].Key()] = true
 				}
@@ -384,7 +426,10 @@ func TestParser(t *testing.T) {
 			}
 			var elems []string
 			for i, e := range d.Ents {
-				txt, _ := renderEnt(w, e, fmt.Sprintf("e%d-%s", i+1, tag))
+				txt, ce := renderEnt(w, e, fmt.Sprintf("e%d-%s", i+1, tag))
+				if d.Ctx == "swapped_hub_prefixes" {
+					txt = swapEnt(w, e, txt, ce)
+				}
 				elems = append(elems, txt)
 			}
 			// two dataset sections when there are two or more entities: the first half goes to txName, the rest to
@@ -399,7 +444,7 @@ func TestParser(t *testing.T) {
 				split = (len(elems) + 1) / 2
 			}
 			txdoc := "{"
-			if c := renderCtx(d.Ctx); c != "" {
+			if c := renderCtxW(w, d.Ctx); c != "" {
 				txdoc += `"@context":` + c + ","
 			}
 			txdoc += `"` + txName + `":[` + strings.Join(elems[:split], ",") + "]"
